@@ -463,6 +463,29 @@ func c06Record(c *engine.Ctx, rule string) {
 			if fa, isFA := base.(*ssa.FieldAddr); isFA && engine.FieldOf(fa) == attemptF {
 				fromAttempt = true
 			}
+			// ... or of a local copy of the pending attempt (`prev := rl.mostRecentLoadAttempt`)
+			isAttemptLoad := func(v ssa.Value) bool {
+				u, ok := engine.Strip(v).(*ssa.UnOp)
+				if !ok || u.Op != token.MUL {
+					return false
+				}
+				fa, ok := u.X.(*ssa.FieldAddr)
+				return ok && engine.FieldOf(fa) == attemptF
+			}
+			if al, isAl := base.(*ssa.Alloc); isAl {
+				var stores []*ssa.Store
+				for _, r := range *al.Referrers() {
+					if st, ok := r.(*ssa.Store); ok && st.Addr == ssa.Value(al) {
+						stores = append(stores, st)
+					}
+				}
+				if len(stores) == 1 && isAttemptLoad(stores[0].Val) {
+					fromAttempt = true
+				}
+			}
+			if isAttemptLoad(base) {
+				fromAttempt = true // field of the struct value read in one piece
+			}
 		}
 		c.Decide(rule, key+"|records-own-outcome", recCall.Pos(), fromAttempt,
 			"the recorded success flag is the pending attempt's own",
